@@ -265,8 +265,8 @@ func (n *pnode) tokens(c int) string { return strings.Join(n.toks(c), " ") }
 
 type pgen struct {
 	lits bool
-	r *rand.Rand
-	n int
+	r    *rand.Rand
+	n    int
 }
 
 func (g *pgen) atom() *pnode {
